@@ -116,14 +116,23 @@ func addPointsAndSnap(ix *pointindex.PointIndex, polygon geom.Polygon, levels []
 			for level := range levelMap {
 				cleanedNewVertices := cleanupNewVertices(newVertices[level], segment, level, mapslicehelp.LastElement(newRing[level]))
 				newRing[level] = append(newRing[level], cleanedNewVertices...)
+				if verifEnabled {
+					verifTrace("seg", ringIdx, vertexIdx, level, cleanedNewVertices)
+				}
 			}
 		}
 
 		// walk through the new ring and append to the polygon (on all levels)
 		for level := range levelMap {
 			outerRings, innerRings, pointsAndLines := cleanupNewRing(newRing[level], isOuter, ix.GetHitMultiple(level), ringIdx)
+			if verifEnabled {
+				verifTrace("ring", ringIdx, level, newRing[level], outerRings, innerRings, pointsAndLines)
+			}
 			// Check if outer ring has become too small
 			if isOuter && len(outerRings) == 0 && (!config.KeepPointsAndLines || len(pointsAndLines) == 0) {
+				if verifEnabled {
+					verifTrace("drop", ringIdx, level)
+				}
 				delete(levelMap, level) // If too small, delete it
 				continue
 			}
@@ -140,6 +149,9 @@ func addPointsAndSnap(ix *pointindex.PointIndex, polygon geom.Polygon, levels []
 		newOuters[l], newInners[l] = dedupeInnersOuters(newOuters[l], newInners[l])
 		newPolygonsForLevel := matchInnersToPolygons(outersToPolygons(newOuters[l]), newInners[l], len(polygon) > 1)
 		reverseWindingOrderIfConfigured(newPolygonsForLevel, config)
+		if verifEnabled {
+			verifTrace("assembled", l, newPolygonsForLevel)
+		}
 		if len(newPolygonsForLevel) > 0 {
 			newPolygons[l] = newPolygonsForLevel
 		}
